@@ -109,6 +109,16 @@ func (e *digEnv) violation(prop, what string) {
 	})
 }
 
+// refusal: an oracle about a request the digester has to REFUSE (unset seed, level beyond
+// Levels()).  The clause is C18's, but no check that runs this stream is C18: the violation is
+// filed under every property that does run it (their digester theorems all rest on these refusals:
+// spec(k0, msg, level) is defined for a set seed and level < Levels() only), and under C18.
+func (e *digEnv) refusal(what string) {
+	for _, p := range []string{"C02", "C04", "C12", "C16", "C18"} {
+		e.violation(p, what)
+	}
+}
+
 func digHex(b []byte) string {
 	if len(b) == 0 {
 		return "-"
@@ -264,7 +274,7 @@ func (e *digEnv) buildWith(b atree.DigesterBuilder, k0, k1 uint64, key dKey) *di
 			e.st.Hit("build:new-object")
 		}
 		if k0 == 0 {
-			e.violation("C18", "DigesterBuilder.Digest with an unset seed reached the hash input provider")
+			e.refusal("DigesterBuilder.Digest with an unset seed reached the hash input provider")
 		}
 	}
 	want := "ok"
@@ -275,7 +285,7 @@ func (e *digEnv) buildWith(b atree.DigesterBuilder, k0, k1 uint64, key dKey) *di
 		want = "err:external"
 	}
 	if res != want {
-		e.violation("C18", fmt.Sprintf("DigesterBuilder.Digest(k0=%d, fail=%v) returned %s, want %s", k0, key.fail, res, want))
+		e.refusal(fmt.Sprintf("DigesterBuilder.Digest(k0=%d, fail=%v) returned %s, want %s", k0, key.fail, res, want))
 	}
 	s := &digSlot{d: d, k0: k0, msg: key.msg}
 	if err != nil {
@@ -397,7 +407,7 @@ func (e *digEnv) digest(i int, s *digSlot, level uint) {
 	}
 	e.w.L("DIG h=%d l=%d r=ok:%d", i, level, uint64(x))
 	if level >= s.d.Levels() {
-		e.violation("C18", fmt.Sprintf("Digest(%d) succeeded although Levels() = %d", level, s.d.Levels()))
+		e.refusal(fmt.Sprintf("Digest(%d) succeeded although Levels() = %d", level, s.d.Levels()))
 		return
 	}
 	e.st.Hit(fmt.Sprintf("digest:level%d", level))
@@ -439,7 +449,7 @@ func (e *digEnv) prefix(i int, s *digSlot, level uint) {
 	e.w.L("PRE h=%d l=%d r=ok:%s", i, level, r)
 	e.st.Hit(fmt.Sprintf("prefix:%d", level))
 	if level > s.d.Levels() {
-		e.violation("C18", fmt.Sprintf("DigestPrefix(%d) succeeded although Levels() = %d", level, s.d.Levels()))
+		e.refusal(fmt.Sprintf("DigestPrefix(%d) succeeded although Levels() = %d", level, s.d.Levels()))
 		return
 	}
 	if uint(len(xs)) != level {
